@@ -45,6 +45,7 @@ VARIANTS = {
     'default': {},
     'gt0': {'graceful_timeout': 0},
     'max_age': {'max_age': 1, 'max_age_variance': 0},
+    'max_age_var': {'max_age': 3, 'max_age_variance': 2},      # the stagger (randint) is pinned to its upper bound by the world
     'send_hup': {'send_hup': True},
     'respawn_off': {'respawn': False},
     'stop_children': {'stop_children': True},
